@@ -321,4 +321,165 @@ theorem inv_free {lo hi : Nat} {g : G} {st : St} (hI : Inv lo hi g st) {r : Reg}
     unfold AvailExact at this
     omega
 
+/-- An `allocate_contiguous_chunks` that returns normally either found no run (`0`, state unchanged)
+or returns the chunk the region map's `alloc` returned. -/
+theorem allocate_val (debug : Bool) (st st' : St) (d k head c : Nat)
+    (h : allocate debug st d k head = (st', .val c)) :
+    ((st.fl.alloc k).1 = none ∧ c = 0 ∧ st' = st) ∨ (st.fl.alloc k).1 = some c := by
+  unfold allocate at h
+  split at h
+  · rename_i x heq
+    simp only [Prod.mk.injEq, R.val.injEq] at h
+    exact Or.inl ⟨by rw [heq], h.2.symm, h.1.symm⟩
+  · rename_i chunk fl heq
+    refine Or.inr ?_
+    rw [heq]
+    show some chunk = some c
+    congr 1
+    dsimp only at h
+    repeat' split at h
+    all_goals first | (simp only [Prod.mk.injEq, R.val.injEq, reduceCtorEq, and_false] at h) | skip
+    all_goals exact h.2
+
+/-- **Preservation by `allocate_contiguous_chunks(d, k, head)`** (`k ≥ 1`; `head` = `0` or the current
+head of a list) when it returns `c` (`0` = exhausted): the invariant holds for the oracle's updated
+bookkeeping — in particular the new region `[c, c + k)` lies in the range and is disjoint from every
+allocated region. -/
+theorem inv_allocate {lo hi : Nat} {g : G} {st : St} (hI : Inv lo hi g st) {debug : Bool}
+    {d k head : Nat} {st' : St} {c : Nat} (hk : 1 ≤ k)
+    (hhead : head = 0 ∨ ∃ l ∈ g.lists, l.head? = some head)
+    (h : allocate debug st d k head = (st', .val c)) : Inv lo hi (g.alloc d k head c) st' := by
+  rcases allocate_val debug st st' d k head c h with ⟨_, rfl, rfl⟩ | hsome
+  · unfold G.alloc; rw [if_pos rfl]; exact hI
+  obtain ⟨s, hfree, hks, hflinv, hflmem⟩ := alloc_spec hI.fl hk hsome
+  obtain ⟨hclo, hchi⟩ := hI.fl.free_in _ hfree rfl
+  dsimp only at hclo hchi
+  have hlo := hI.lo_pos
+  have hc : c ≠ 0 := by omega
+  obtain ⟨_, hfl, hav, _, hdesc, hl0, hl1⟩ := allocate_partial debug st st' d k head c h hc
+  have hg : g.alloc d k head c = { regions := ⟨c, k, d⟩ :: g.regions, lists := pushList c head g.lists } := by
+    unfold G.alloc; rw [if_neg hc]
+  obtain ⟨hnd, hmem, hlk, hunl⟩ := hI.links_exact
+  have h0 := hI.zero_not_mem
+  have hdisj : ∀ r' ∈ g.regions, r'.start + r'.size ≤ c ∨ c + s ≤ r'.start := by
+    intro r' hr'
+    rcases hI.fl.eq_or_disj (hI.reg_run r' hr') hfree with e | dd
+    · cases e
+    · exact dd
+  have hcnot : c ∉ g.lists.flatten := by
+    intro m
+    obtain ⟨r', hr', hs⟩ := (hmem c).1 m
+    have := hdisj r' hr'
+    have := (hI.regions_disjoint.2 r' hr').1
+    omega
+  obtain ⟨hnc, hpc⟩ := hunl c hcnot
+  rw [hg]
+  refine ⟨hlo, hfl ▸ hflinv, ?_, ⟨?_, ?_⟩, ⟨?_, ?_⟩, ⟨?_, ?_, ?_, ?_⟩, ?_⟩
+  · intro r' hr'
+    rw [hfl]
+    rcases List.mem_cons.1 hr' with rfl | hr'
+    · exact (hflmem _).2 (Or.inr (Or.inl rfl))
+    · refine (hflmem _).2 (Or.inl ⟨hI.reg_run r' hr', ?_⟩)
+      have := hdisj r' hr'
+      have := (hI.regions_disjoint.2 r' hr').1
+      show r'.start ≠ c
+      omega
+  · show (_ :: _).Pairwise Reg.Disj
+    rw [List.pairwise_cons]
+    refine ⟨?_, hI.regions_disjoint.1⟩
+    intro r' hr'
+    have := hdisj r' hr'
+    unfold Reg.Disj; dsimp only; omega
+  · intro r' hr'
+    rcases List.mem_cons.1 hr' with rfl | hr'
+    · dsimp only; omega
+    · exact hI.regions_disjoint.2 r' hr'
+  · intro r' hr' x hx1 hx2
+    rw [hdesc x]
+    rcases List.mem_cons.1 hr' with rfl | hr'
+    · rw [if_pos ⟨hx1, hx2⟩]
+    · have := hdisj r' hr'
+      rw [if_neg (by omega)]
+      exact hI.descriptor_exact.1 r' hr' x hx1 hx2
+  · intro x hx
+    rw [hdesc x]
+    have hxc := hx ⟨c, k, d⟩ (List.mem_cons_self ..)
+    dsimp only at hxc
+    rw [if_neg hxc]
+    exact hI.descriptor_exact.2 x (fun r' hr' => hx r' (List.mem_cons_of_mem _ hr'))
+  · exact nodup_flatten_pushList hnd hcnot
+  · intro x
+    show x ∈ (pushList c head g.lists).flatten ↔ ∃ r ∈ (⟨c, k, d⟩ : Reg) :: g.regions, r.start = x
+    rw [mem_flatten_pushList, hmem]
+    constructor
+    · rintro (rfl | ⟨r', hr', rfl⟩)
+      · exact ⟨_, List.mem_cons_self .., rfl⟩
+      · exact ⟨r', List.mem_cons_of_mem _ hr', rfl⟩
+    · rintro ⟨r', hr', rfl⟩
+      rcases List.mem_cons.1 hr' with rfl | hr'
+      · exact Or.inl rfl
+      · exact Or.inr ⟨r', hr', rfl⟩
+  · -- linked
+    show ∀ l ∈ pushList c head g.lists, Linked st' 0 l
+    by_cases hh : head = 0
+    · obtain ⟨hn', hp'⟩ := hl0 hh
+      have hno : ∀ l ∈ g.lists, l.head? ≠ some head := by
+        intro l hl e
+        cases l with
+        | nil => cases e
+        | cons b t =>
+          simp at e
+          exact h0 (List.mem_flatten.2 ⟨_, hl, by rw [e, hh]; exact List.mem_cons_self ..⟩)
+      rw [pushList_nohead hno]
+      intro l hl
+      rcases List.mem_append.1 hl with hl | hl
+      · exact Linked.frame (fun a _ => by rw [hn', hp']; exact ⟨rfl, rfl⟩) (hlk l hl)
+      · have : l = [c] := by simpa using hl
+        subst this
+        exact ⟨by rw [hp']; exact hpc, by rw [hn']; exact hnc, trivial⟩
+    · obtain ⟨hn', hp'⟩ := hl1 hh
+      have hex : ∃ l ∈ g.lists, l.head? = some head := by
+        rcases hhead with e | e
+        · exact absurd e hh
+        · exact e
+      exact linked_pushList hn' hp' hpc g.lists hnd hcnot hlk hex
+  · -- unlinked
+    intro x hx
+    have hx' : x ∉ (pushList c head g.lists).flatten := hx
+    rw [mem_flatten_pushList] at hx'
+    have hxc : x ≠ c := fun e => hx' (Or.inl e)
+    have hxf : x ∉ g.lists.flatten := fun m => hx' (Or.inr m)
+    obtain ⟨h1, h2⟩ := hunl x hxf
+    by_cases hh : head = 0
+    · obtain ⟨hn', hp'⟩ := hl0 hh
+      rw [hn', hp']; exact ⟨h1, h2⟩
+    · obtain ⟨hn', hp'⟩ := hl1 hh
+      have hxh : x ≠ head := by
+        rcases hhead with e | ⟨l, hl, hlh⟩
+        · exact absurd e hh
+        · intro e
+          apply hxf
+          refine List.mem_flatten.2 ⟨l, hl, ?_⟩
+          cases l with
+          | nil => cases hlh
+          | cons b t => simp at hlh; rw [e, ← hlh]; exact List.mem_cons_self ..
+      rw [hn', hp']; simp [upd, hxc, hxh, h1, h2]
+  · -- avail
+    show st'.avail + regSum ((⟨c, k, d⟩ : Reg) :: g.regions) = hi - lo
+    have hle : regSum ((⟨c, k, d⟩ : Reg) :: g.regions) ≤ hi - lo := by
+      apply regSum_le
+      · rw [List.pairwise_cons]
+        refine ⟨?_, hI.regions_disjoint.1⟩
+        intro r' hr'
+        have := hdisj r' hr'
+        unfold Reg.Disj; dsimp only; omega
+      · intro r' hr'
+        rcases List.mem_cons.1 hr' with rfl | hr'
+        · dsimp only; omega
+        · exact (hI.regions_disjoint.2 r' hr').2
+    have := hI.avail_exact
+    unfold AvailExact at this
+    simp only [regSum] at hle ⊢
+    omega
+
 end Mmtk.Map32
